@@ -157,3 +157,23 @@ Theorem C11_source_tie_toTwist2D : forall w : twist3 (T:=R),
   forall i j, (i < 3)%nat -> (j < 3)%nat -> mget3 (src_toTwist2D_covariance ROps (t3_ang w) (t3_cov w) (t3_lin w)) i j = t2_cov q i j.
 Proof. exact tie_toTwist2D. Qed.
 Print Assumptions C11_source_tie_toTwist2D.
+
+Theorem C11_source_tie_toPoseAndTwist2D : forall (p : pose3 (T:=R)) (w : twist3 (T:=R)),
+  src_toPoseAndTwist2D_inputs = ["arg0.pose.covariance"; "arg0.pose.orientation"; "arg0.pose.position";
+                                 "arg0.twist.angularSpeeds"; "arg0.twist.covariance"; "arg0.twist.linearSpeeds"]%string /\
+  src_toPoseAndTwist2D_outputs = ["pose_position"; "pose_yaw"; "pose_covariance";
+                                  "twist_linearSpeeds"; "twist_angularSpeed"; "twist_covariance"]%string /\
+  src_toPoseAndTwist2D ROps (p3_cov p) (p3_ori p) (p3_pos p) (t3_ang w) (t3_cov w) (t3_lin w) =
+  (src_toPose2D_position ROps (p3_cov p) (p3_ori p) (p3_pos p), src_toPose2D_yaw ROps (p3_cov p) (p3_ori p) (p3_pos p),
+   src_toPose2D_covariance ROps (p3_cov p) (p3_ori p) (p3_pos p),
+   src_toTwist2D_linearSpeeds ROps (t3_ang w) (t3_cov w) (t3_lin w), src_toTwist2D_angularSpeed ROps (t3_ang w) (t3_cov w) (t3_lin w),
+   src_toTwist2D_covariance ROps (t3_ang w) (t3_cov w) (t3_lin w)) /\
+  let q := toPoseAndTwist2D (p, w) in
+  src_toPoseAndTwist2D_pose_position ROps (p3_cov p) (p3_ori p) (p3_pos p) (t3_ang w) (t3_cov w) (t3_lin w) = (p2_x (fst q), p2_y (fst q)) /\
+  src_toPoseAndTwist2D_pose_yaw ROps (p3_cov p) (p3_ori p) (p3_pos p) (t3_ang w) (t3_cov w) (t3_lin w) = p2_yaw (fst q) /\
+  src_toPoseAndTwist2D_twist_linearSpeeds ROps (p3_cov p) (p3_ori p) (p3_pos p) (t3_ang w) (t3_cov w) (t3_lin w) = (t2_vx (snd q), t2_vy (snd q)) /\
+  src_toPoseAndTwist2D_twist_angularSpeed ROps (p3_cov p) (p3_ori p) (p3_pos p) (t3_ang w) (t3_cov w) (t3_lin w) = t2_w (snd q) /\
+  forall i j, (i < 3)%nat -> (j < 3)%nat ->
+    mget3 (src_toPoseAndTwist2D_pose_covariance ROps (p3_cov p) (p3_ori p) (p3_pos p) (t3_ang w) (t3_cov w) (t3_lin w)) i j = p2_cov (fst q) i j /\
+    mget3 (src_toPoseAndTwist2D_twist_covariance ROps (p3_cov p) (p3_ori p) (p3_pos p) (t3_ang w) (t3_cov w) (t3_lin w)) i j = t2_cov (snd q) i j.
+Proof. exact tie_toPoseAndTwist2D. Qed.
